@@ -208,6 +208,12 @@ mod __verif_native_containers {
             f.sets.push(mk_set(Some("SetA"), slots)); files.push(f);
         } }
         { let mut f = ASetFile::new(Some("m".into())); f.anim_clip_table = clip(&[]); files.push(f); }
+        // present-but-empty strings (meta, a clip name, a slot) and two sets that carry the same label
+        { let mut f = ASetFile::new(Some(String::new())); f.anim_clip_table = clip(&[3]); f.anim_clip_table[7] = Some(String::new());
+          let mut st = mk_set(Some("SetE"), &[2, 40]); st[5] = Some(String::new()); st[256] = Some(String::new()); f.sets.push(st); files.push(f); }
+        { let mut f = ASetFile::new(None); f.anim_clip_table = clip(&[1]);
+          f.sets.push(mk_set(Some("uEAnim_dup"), &[1, 33])); f.sets.push(mk_set(Some("other"), &[2])); f.sets.push(mk_set(Some("uEAnim_dup"), &[64])); files.push(f); }
+        { let mut f = ASetFile::new(None); f.anim_clip_table = clip(&[1]); f.sets.push(mk_set(None, &[9])); f.sets.push(mk_set(Some("L"), &[])); f.sets.push(mk_set(Some("M"), &[256])); files.push(f); }
         { let mut f = ASetFile::new(None); f.anim_clip_table = clip(&(0..257).collect::<Vec<_>>());
           for (i, slots) in slot_sets.iter().enumerate() { f.sets.push(mk_set(Some(&format!("Set{}", i)), slots)); } files.push(f); }
         for f in &files {
